@@ -5,6 +5,8 @@ mod c09;
 mod c12;
 mod conv;
 mod c13;
+mod c14;
+mod templates;
 mod digest;
 mod docgen;
 mod docs;
@@ -29,6 +31,7 @@ fn make_check(id: &str) -> Option<Box<dyn Check>> {
         "C02" => Some(Box::new(c02::C02::new())),
         "C09" => Some(Box::new(c09::C09::new())),
         "C12" => Some(Box::new(c12::C12::new())),
+        "C14" => Some(Box::new(c14::C14::new())),
         "C13" => Some(Box::new(c13::C13::new())),
         _ => None,
     }
